@@ -3,6 +3,7 @@ package enginex
 import (
 	"fmt"
 	"strings"
+	"sync"
 	"time"
 
 	"verifharness/lib/hx"
@@ -123,12 +124,52 @@ func Run(c Case, deadline time.Duration) Obs {
 	return RunV2(c, deadline)
 }
 
+var (
+	ckfOnce sync.Once
+	ckfVal  bool
+)
+
+// CloneKeepsFiltered probes the v1 code the harness was built against: does a
+// record that a pipeline processor filtered stay away from the destinations
+// when the fan-out has two branches (i.e. does stream.Message.Clone copy the
+// filtered flag)? The answer parameterises the v1 acceptor (topo.ckf), so the
+// correspondence follows the code across a fix of that defect.
+func CloneKeepsFiltered() bool {
+	ckfOnce.Do(func() {
+		c := Case{
+			Engine:     "v1",
+			Sources:    []SrcSpec{{Batches: []int{2}}},
+			PipeProcs:  []ProcSpec{{Filter: [][2]int{{0, 0}}, Workers: 1}},
+			Dests:      []DstSpec{{}, {}},
+			Sched:      []int{0},
+			GoMaxProcs: 4,
+		}
+		o := RunV1(c, 5*time.Second)
+		written, other := false, false
+		for _, e := range o.Log {
+			if e.T == "W" && e.K == 0 {
+				written = true
+			}
+			if e.T == "W" && e.K == 1 {
+				other = true
+			}
+		}
+		// the probe is only conclusive if the unfiltered record did arrive
+		ckfVal = other && !written
+	})
+	return ckfVal
+}
+
 // CoqCase renders the case for Multi/Check.v.
-func CoqCase(c Case, o Obs) string {
+func CoqCase(c Case, o Obs, v1ckf bool) string {
 	evs := make([]string, len(o.Log))
 	for i, e := range o.Log {
 		evs[i] = e.Coq()
 	}
-	return fmt.Sprintf("Case (mkTopo %s %d %d) [%s]", hx.Bool(c.Engine == "v2"), len(c.Sources), len(c.Dests),
-		strings.Join(evs, "; "))
+	ckf := true
+	if c.Engine == "v1" {
+		ckf = v1ckf
+	}
+	return fmt.Sprintf("Case (mkTopo %s %d %d %s) [%s]", hx.Bool(c.Engine == "v2"), len(c.Sources), len(c.Dests),
+		hx.Bool(ckf), strings.Join(evs, "; "))
 }
